@@ -617,7 +617,7 @@ def run_rules(chk, progs=None, limit=None):
             batch = plist[b0:b0 + 100]
             src, asts = c_source(batch, variant)
             try:
-                m = build.compile_text("c08_%s_%d.c" % ("fibre" if variant else "pt", b0), src)
+                m = build.compile_text("c08_%s_%d.c" % ("fibre" if variant else "pt", b0), src, inline_except=())
             except AnalysisError as e:
                 chk.unknown("V2" if variant else "V1", "batch %d" % b0, "witness batch does not compile: %s" % str(e)[-400:])
                 continue
